@@ -184,6 +184,11 @@ def main(argv):
             variants.append(('shift', gsh, idb, a))
         for kind, gv, idv, a in variants:
             r = cd.run_real(gv, d + '_' + kind)
+            if r[0] != 'ok' and 'flew farther than a cell' in str(r[2]):
+                # a per-step displacement above one cell is outside the envelope of every property: whether the code notices it depends on
+                # where the particle sits in its cell, i.e. on the origin - the documented error, not a result
+                skip('variant: particle flew farther than a cell (documented error exit)')
+                continue
             if r[0] != 'ok':
                 summ['violations'].append(dict(case=case, kind=kind, detail='variant run failed: %s' % str(r[2])[-200:], scenario=cd.to_symlib(gs), variant=cd.to_symlib(gv)))
                 continue
